@@ -244,6 +244,13 @@ OpCMNewSeq(U, m, t) == IF t \in SeqToSet(U.mats[m].rows) \/ t \notin NsMem(U, U.
                      ELSE COk([U EXCEPT !.mats[m].rows = Append(@, t)])
 OpCMSetItem(U, m, t) == IF t \notin NsMem(U, U.mats[m].ns) THEN CErr(U, "ValueError")
                       ELSE COk(IF t \in SeqToSet(U.mats[m].rows) THEN U ELSE [U EXCEPT !.mats[m].rows = Append(@, t)])
+\* item access cm[key]: key is a Taxon object (passed through as it is), a label (first member matching under the
+\* namespace's rule, else KeyError) or an index into the namespace (else IndexError); a member without a sequence
+\* gets one (new_sequence), a taxon outside the namespace is refused (ValueError)
+GetRow(U, m, t) == IF t \in SeqToSet(U.mats[m].rows) THEN COk(U) ELSE OpCMNewSeq(U, m, t)
+OpCMGetTaxon(U, m, t) == GetRow(U, m, t)
+OpCMGetLabel(U, m, lab) == LET t == FirstMatch(U, U.mats[m].ns, lab) IN IF t = 0 THEN CErr(U, "KeyError") ELSE GetRow(U, m, t)
+OpCMGetIndex(U, m, i) == LET mem == U.ns[U.mats[m].ns].mem IN IF i >= Len(mem) THEN CErr(U, "IndexError") ELSE GetRow(U, m, mem[i + 1])
 \* reconstruct_taxon_namespace row by row.  Two sequences cannot share a taxon: documented
 \* TaxonNamespaceReconstructionError.  ship = the shipped loop (moves row by row, also trips over a
 \* row that maps to itself); the reference design detects the collision before changing the matrix.
@@ -382,6 +389,9 @@ Guard(U, a, x) ==     \* on a sane universe (Sane is checked separately: invaria
       [] a = "TARead"          -> HasArr(U, x.a) /\ TreeSrcOk(x.srcs, U.ns[U.arrs[x.a].ns].cs)
       [] a = "CMNewSeq"        -> HasMat(U, x.m) /\ HasTax(U, x.t)
       [] a = "CMSetItem"       -> HasMat(U, x.m) /\ HasTax(U, x.t)
+      [] a = "CMGetTaxon"      -> HasMat(U, x.m) /\ HasTax(U, x.t)
+      [] a = "CMGetLabel"      -> HasMat(U, x.m)
+      [] a = "CMGetIndex"      -> HasMat(U, x.m) /\ x.i >= 0
       [] a = "CMMigrate"       -> HasMat(U, x.m) /\ HasNs(U, x.n) /\ (MatInDs(U, x.m) /\ U.ds.att # 0 => x.n = U.ds.att)
       [] a = "CMReconstruct"   -> HasMat(U, x.m)
       [] a = "CMUpdate"        -> HasMat(U, x.m)
@@ -433,6 +443,9 @@ Apply(U, a, x) ==
       [] a = "TARead"          -> OpTARead(U, x.a, x.srcs)
       [] a = "CMNewSeq"        -> OpCMNewSeq(U, x.m, x.t)
       [] a = "CMSetItem"       -> OpCMSetItem(U, x.m, x.t)
+      [] a = "CMGetTaxon"      -> OpCMGetTaxon(U, x.m, x.t)
+      [] a = "CMGetLabel"      -> OpCMGetLabel(U, x.m, x.lab)
+      [] a = "CMGetIndex"      -> OpCMGetIndex(U, x.m, x.i)
       [] a = "CMMigrate"       -> OpCMMigrate(U, x.m, x.n, x.unify)
       [] a = "CMReconstruct"   -> OpCMReconstruct(U, x.m, x.unify)
       [] a = "CMUpdate"        -> OpCMUpdate(U, x.m)
